@@ -40,7 +40,10 @@ def key_fn(ev, clause):
         return '%s|%s' % (name, ev.get('ev'))
     x = _side(ev, clause)
     s, o = x['scn'], x['scn']['opts']
-    return '%s|%s|%s|%s|acs=%d' % (name, s['proto'], s['kind'], 'rev' if s['rev'] else 'fwd', o['allow_cycle_shift'])
+    key = '%s|%s|%s|%s|acs=%d' % (name, s['proto'], s['kind'], 'rev' if s['rev'] else 'fwd', o['allow_cycle_shift'])
+    if s['proto'] == 'chic':
+        key += '|mx=%s' % (''.join(s['mx']) or 'none')
+    return key
 
 
 def what_fn(ev, clause):
@@ -91,7 +94,8 @@ def _selftest(c, good):
     """Binding self-test: corrupt one recorded field of accepted observations -> TLC must reject."""
     acc = [e for e in good if e['a']['out']['has_ds'] and e['b']['out']['has_ds']]
     nla = [e for e in acc if e['a']['scn']['proto'] == 'nla' and e['a']['scn']['kind'] == 'ok' and not e['a']['scn']['opts']['no_cigar']][:1]
-    chic = [e for e in acc if e['a']['scn']['proto'] == 'chic'][:1]
+    chic = [e for e in acc if e['a']['scn']['proto'] == 'chic'
+            and (''.join(e['a']['scn']['mx']).startswith('scCHIC') == (e['a']['scn']['kind'] == 'trimmed'))][:1]   # judged layouts only
     rej = [e for e in good if e['a']['scn']['proto'] == 'nla' and not e['a']['out']['has_ds'] and e['a']['scn']['kind'] == 'mm'
            and e['a']['scn']['opts']['check_motif']][:1]
     if not (nla and chic and rej):
@@ -167,7 +171,7 @@ def run(tier):
     # the same geometries on random references (random length / cut position / read length / neighbouring motifs)
     import random
     rng = random.Random(c.seed)
-    sub = scns if not q else rng.sample(scns, min(len(scns), 3000))
+    sub = scns if not q else rng.sample(scns, min(len(scns), 2500))
     sp2 = os.path.join(vlib.scratch(), 'scenarios_random.json')
     with open(sp2, 'w') as f:
         json.dump(sub, f)
